@@ -30,7 +30,8 @@ import nlx
 RULE = ('seeded designs = gen_designs.make_design + C04 structure (const exprs, one-const 1-bit gates, '
         'swapped-argument duplicates of & | ^ nand + * == - < > concat mux, duplicated Const objects, '
         'registers of constants and chains of them, write-only memory logic, dead logic, w / full-slice chains) '
-        'plus 8 directed witnesses (multi-bit constant nand, duplicate constant memory writes, swapped non-commutative ops, '
+        'plus 11 directed witnesses (multi-bit constant nand, duplicate constant memory writes, swapped non-commutative ops, '
+        'memory writes with constant data / constant enables read back, 1-bit identity-element folds driving Outputs directly (raw nets and after direct_connect_outputs), '
         'same-width permuting selects next to identity slices, word-level & | ^ nand against 0 / all-ones / middle constants) with fixed distinguishing stimulus; x form {word, synth, nand, aig} x pass {optimize, constant_propagation, '
         'common_subexp_elimination, _remove_wire_nets, _remove_slice_nets, _remove_unlistened_nets} x '
         'applications {1, 2}; a case is distinct by (design, form, pass, reps, output trace) and non-trivial '
@@ -280,6 +281,8 @@ def directed(kind):
     pyrtl.reset_working_block()
     d = gen_designs.Design(pyrtl.working_block())
     d.stimulus = None
+    d.meminit = None
+    d.post_build = None
     outs = []
     if kind.startswith('wordconst_'):
         # word-level bitwise op against Const 0 / all-ones / a middle constant of the SAME
@@ -318,6 +321,52 @@ def directed(kind):
                  a[0:4], a[:], ~a[0:4], raw_select(a, (0, 1, 2, 3), 'id4'), raw_select(b, (0, 1, 2), 'id3'),
                  b[0:3] ^ b[::-1], c[0:8], raw_select(c, tuple(range(8)), 'id8')]
         d.stimulus = [{'a': i, 'b': (i * 3 + 1) % 8, 'c': (i * 37 + 1) % 256} for i in range(16)]
+    elif kind == 'memwr_consts':
+        # write ports whose DATA is a literal constant (0 / all-ones / middle) under an input
+        # enable, and ports with constant ENABLES (1, 0, and the implicit 1 of an unconditional
+        # write), each memory read back to an Output; memories start non-zero (d.meminit)
+        wa = pyrtl.Input(2, 'wa')
+        ra = pyrtl.Input(2, 'ra')
+        en = pyrtl.Input(1, 'en')
+        di = pyrtl.Input(4, 'di')
+        d.inputs += [wa, ra, en, di]
+        specs = [('z', pyrtl.Const(0, 4), en), ('f', pyrtl.Const(15, 4), en), ('m', pyrtl.Const(6, 4), en),
+                 ('e1', di, pyrtl.Const(1, 1)), ('e0', di, pyrtl.Const(0, 1)),
+                 ('z1', pyrtl.Const(0, 4), pyrtl.Const(1, 1)), ('u', pyrtl.Const(0, 4), None)]
+        for nm, data, enable in specs:
+            m = pyrtl.MemBlock(4, 2, 'mem_' + nm, max_read_ports=None, max_write_ports=None,
+                               asynchronous=True)
+            d.mems.append(m)
+            if enable is None:
+                m[wa] <<= data
+            else:
+                m[wa] <<= pyrtl.MemBlock.EnabledWrite(data, enable)
+            outs.append(pyrtl.as_wires(m[ra]))
+        d.meminit = lambda a: 9 + a
+        d.stimulus = [{'wa': w, 'ra': r, 'en': e, 'di': (3 * w + 5) % 16}
+                      for (w, r, e) in [(0, 0, 1), (1, 0, 0), (1, 1, 1), (2, 1, 1), (3, 2, 0), (3, 3, 1),
+                                        (0, 3, 0), (0, 0, 0), (1, 1, 0), (2, 2, 0)]]
+    elif kind in ('direct_out_raw', 'direct_out_dco'):
+        # 1-bit gates with one constant input whose destination IS an Output (no 'w' net in
+        # between): hand-built nets, or API-built nets after direct_connect_outputs()
+        x = pyrtl.Input(1, 'x')
+        y = pyrtl.Input(1, 'y')
+        d.inputs += [x, y]
+        one, zero = pyrtl.Const(1, 1), pyrtl.Const(0, 1)
+        combos = [('&', x, one), ('&', one, x), ('|', x, zero), ('|', zero, y), ('^', x, zero),
+                  ('^', zero, y), ('&', x, zero), ('|', y, one), ('^', x, one), ('^', one, y),
+                  ('n', x, one), ('n', one, y), ('n', x, zero), ('&', x, y), ('^', y, x)]
+        if kind == 'direct_out_raw':
+            for i, (op, a0, a1) in enumerate(combos):
+                o = pyrtl.Output(1, 'o%d' % i)
+                d.outputs.append(o)
+                pyrtl.working_block().add_net(pyrtl.LogicNet(op, None, (a0, a1), (o,)))
+        else:
+            for op, a0, a1 in combos:
+                outs.append({'&': lambda p, q: p & q, '|': lambda p, q: p | q, '^': lambda p, q: p ^ q,
+                             'n': lambda p, q: p.nand(q)}[op](a0, a1))
+            d.post_build = 'direct_connect_outputs'
+        d.stimulus = [{'x': i % 2, 'y': (i // 2) % 2} for i in range(6)]
     else:
         a = pyrtl.Input(2, 'a')
         d.inputs.append(a)
@@ -343,14 +392,19 @@ def directed(kind):
         o = pyrtl.Output(len(t), 'o%d' % i)
         o <<= t
         d.outputs.append(o)
+    if d.post_build == 'direct_connect_outputs':
+        with quiet():
+            ppasses.direct_connect_outputs(pyrtl.working_block())
     d.ops.append('directed:' + kind)
     return d
 
 
 DIRECTED = ['nand_const', 'memwr_dup', 'swap_noncomm', 'perm_selects',
-            'wordconst_and', 'wordconst_or', 'wordconst_xor', 'wordconst_nand']
+            'wordconst_and', 'wordconst_or', 'wordconst_xor', 'wordconst_nand',
+            'memwr_consts', 'direct_out_raw', 'direct_out_dco']
 # gate-level forms of the word-constant witnesses are large and contain only 1-bit gates
-DIRECTED_FORMS = {k: (['word'] if k.startswith('wordconst_') else ['word', 'synth']) for k in DIRECTED}
+DIRECTED_FORMS = {k: (['word'] if k.startswith(('wordconst_', 'direct_out_')) else ['word', 'synth'])
+                  for k in DIRECTED}
 
 
 GATE_OPS = ['&', '|', '^', '~', 'nand', '+', '-', '<', '>', '==', 'mux', 'const', 'slice', 'index',
@@ -639,7 +693,7 @@ def has_dup_const_memwrite(block):
 
 def run(ctx):
     quick = ctx.tier == 'quick'
-    ndesigns = (len(DIRECTED) + 5) if quick else (len(DIRECTED) + 120)
+    ndesigns = (len(DIRECTED) + 5) if quick else (len(DIRECTED) + 80)
     ncyc_max = 6 if quick else 12
     max_model_nets = 320 if quick else 700
     cases = []          # one per (design, form): shared dump + stimulus + spec
@@ -678,6 +732,9 @@ def run(ctx):
             # ---- the original: dump, stimulus, steady-state proviso
             ncyc = rng.randint(3, ncyc_max if form == 'word' else 4)
             regs, regmap, memmap, inputs = make_stimulus(rng, block, ncyc)
+            if getattr(d, 'meminit', None) is not None:
+                memmap = {m: {a: d.meminit(a) for a in range(1 << m.addrwidth)}
+                          for m in block_mems(block) if not isinstance(m, pyrtl.RomBlock)}
             if getattr(d, 'stimulus', None):
                 inputs = [dict(st) for st in d.stimulus]    # directed: a distinguishing sequence
                 if form != 'word':
